@@ -3,11 +3,15 @@ package mon
 import (
 	"encoding/json"
 	"fmt"
+	"strings"
 
+	gqlparser "github.com/vektah/gqlparser/v2"
 	"github.com/vektah/gqlparser/v2/ast"
 	"github.com/vektah/gqlparser/v2/parser"
+	"github.com/vektah/gqlparser/v2/validator"
 
 	"verif/harness/internal/core"
+	"verif/harness/internal/dgen"
 	"verif/harness/internal/gen"
 	"verif/harness/internal/model"
 )
@@ -21,14 +25,14 @@ func init() {
 			"distinct = distinct (kind-at-depth) shape signatures of the selection trees",
 		Assumptions: []string{
 			"model equality ignores positions, comments and validation annotations (the property lists operations, fragments, selections, names, arguments, values, directives, type conditions)",
-			"documents are parsed but not validated (the property's domain)",
+			"most documents are parsed but not validated; one in eight is a schema-valid document encoded AFTER validation (the annotations validation leaves on the tree are part of what json.Marshal sees)",
 		},
 		Shards:          func(tier string) int { return 16 },
 		Run:             c19Run,
 		Check:           c19Check,
 		DistinctClasses: []string{"shape"},
 		MinEvaluations:  func(tier string) int64 { return 1000 },
-		RequiredCounts:  []string{"roundtrips", "with_spread", "with_inline", "decoded_into_used_value", "deep_chain_documents"},
+		RequiredCounts:  []string{"roundtrips", "with_spread", "with_inline", "decoded_into_used_value", "deep_chain_documents", "validated_documents_encoded"},
 	})
 }
 
@@ -63,6 +67,16 @@ func c19Run(x *core.Ctx) {
 		}
 		c := core.NewCase("doc", "doc", rn.RenderDoc(d))
 		x.Do(c, func() { c19Check(x, c) })
+		if i%8 == 7 {
+			// a document that went through validation before it is encoded (servers persist validated documents): the
+			// links validation leaves on the tree must neither break the encoding nor leak into what is decoded
+			sc := c08MakeSchema(r, i)
+			g := dgen.New(r, sc.mg, &dgen.Opts{MaxDepth: 1 + r.Intn(3), MaxOps: 1 + r.Intn(2), Introspect: i%3 == 0, DeepValues: i%2 == 0})
+			if vd := g.Doc(); len(vd.Defs) > 0 {
+				vc := core.NewCase("doc", "doc", (&model.Renderer{}).RenderDoc(vd), "schema", sc.src)
+				x.Do(vc, func() { c19Check(x, vc) })
+			}
+		}
 	}
 }
 
@@ -96,9 +110,27 @@ func c19Check(x *core.Ctx, c *core.Case) {
 		return
 	}
 	want := model.FromAST(doc)
+	if ssrc := c.Get("schema"); ssrc != "" {
+		schema, lerr := gqlparser.LoadSchema(&ast.Source{Name: "schema.graphql", Input: ssrc})
+		if lerr != nil {
+			x.Count("skipped:schema-does-not-load")
+			return
+		}
+		if errs := validator.Validate(schema, doc); len(errs) > 0 {
+			x.Count("skipped:document-rejected")
+			return
+		}
+		x.Count("validated_documents_encoded")
+	}
 	enc, merr := json.Marshal(doc)
 	if merr != nil {
-		x.Violate("encode-error", merr.Error(), "document encodes")
+		reason := firstWords(templateOf(merr.Error()), 8)
+		if strings.Contains(merr.Error(), "encountered a cycle") && c.Get("schema") != "" && c19DirectiveCycle(c.Get("schema")) {
+			// the links validation left on the tree lead into a schema whose directive definitions apply each other on
+			// their arguments: the pointer graph that json.Marshal walks is cyclic
+			reason = "validated:schema-directive-definitions-apply-each-other"
+		}
+		x.Violate("encode-error("+reason+")", merr.Error(), "document encodes")
 		return
 	}
 	var back ast.QueryDocument
@@ -157,4 +189,45 @@ func c19Primer() []byte {
 		c19PrimerJSON, _ = json.Marshal(d)
 	}
 	return c19PrimerJSON
+}
+
+// c19DirectiveCycle: do the directive definitions of the schema text apply each other, directly or through others, on their
+// arguments (@a's argument carries @b and @b's argument carries @a)?
+func c19DirectiveCycle(ssrc string) bool {
+	sd, err := parser.ParseSchema(&ast.Source{Name: "schema.graphql", Input: ssrc})
+	if err != nil {
+		return false
+	}
+	edges := map[string][]string{}
+	for _, d := range sd.Directives {
+		for _, a := range d.Arguments {
+			for _, use := range a.Directives {
+				edges[d.Name] = append(edges[d.Name], use.Name)
+			}
+		}
+	}
+	state := map[string]int{}
+	var visit func(n string) bool
+	visit = func(n string) bool {
+		switch state[n] {
+		case 1:
+			return true
+		case 2:
+			return false
+		}
+		state[n] = 1
+		for _, m := range edges[n] {
+			if visit(m) {
+				return true
+			}
+		}
+		state[n] = 2
+		return false
+	}
+	for n := range edges {
+		if visit(n) {
+			return true
+		}
+	}
+	return false
 }
